@@ -420,6 +420,47 @@ func runC17(r *engine.Run) {
 		})
 	}
 
+	// ---- hex byte strings kept by plain assignment while their variable decodes the next text (directly and
+	// as members of a document decoded by encoding/json, which hands UnmarshalText the member's address): the
+	// kept value stays what it was. (Pointer members and slices of structs are re-used by encoding/json
+	// itself; that is the caller's business and not judged.)
+	keptLens := []int{0, 1, 2, 3, 8, 16, 17, 64}
+	r.PartDims("hexbytes/kept-copy", []string{fmt.Sprintf("first length:%d", len(keptLens)), fmt.Sprintf("second length:%d", len(keptLens)), "through{UnmarshalText, a JSON document}"}, uint64(len(keptLens)*len(keptLens)*2), func(c *engine.Case) {
+		la, lb := keptLens[c.Index%uint64(len(keptLens))], keptLens[c.Index/uint64(len(keptLens))%uint64(len(keptLens))]
+		viaJSON := c.Index/uint64(len(keptLens)*len(keptLens)) == 1
+		c.Eval()
+		c.NonTrivial()
+		a, b := fillBytes(la, 0x11), fillBytes(lb, 0xC3)
+		type doc struct {
+			PHYPayload backend.HEXBytes
+			Token      backend.HEXBytes
+		}
+		var v doc
+		dec := func(x []byte) error {
+			if viaJSON {
+				return json.Unmarshal([]byte(fmt.Sprintf(`{"PHYPayload":"%x","Token":"%x"}`, x, x)), &v)
+			}
+			if err := v.PHYPayload.UnmarshalText([]byte(fmt.Sprintf("%x", x))); err != nil {
+				return err
+			}
+			return v.Token.UnmarshalText([]byte(fmt.Sprintf("%x", x)))
+		}
+		if err := dec(a); err != nil {
+			c.Fail("hexbytes/kept-copy/decode", err.Error(), nil)
+			return
+		}
+		keep := v
+		if err := dec(b); err != nil {
+			c.Fail("hexbytes/kept-copy/decode", err.Error(), nil)
+			return
+		}
+		if !bytes.Equal(keep.PHYPayload, a) || !bytes.Equal(keep.Token, a) || !bytes.Equal(v.PHYPayload, b) {
+			c.Fail("hexbytes/kept-copy-changed", fmt.Sprintf("a copy (by assignment) of the value decoded from %x reads %x / %x after %x was decoded into the variable it was copied from (which reads %x)", a, []byte(keep.PHYPayload), []byte(keep.Token), b, []byte(v.PHYPayload)), nil)
+			return
+		}
+		c.Outcome("hexbytes/kept-copy/unchanged")
+	})
+
 	// ---- the string-typed members of the payloads (ResultCode, MessageType, ProtocolVersion, identifiers as
 	// text): the Backend Interfaces specification's own spellings of every result code and message type,
 	// the library's constants, and neighbours of both (case, a trailing character): a string is carried
